@@ -331,7 +331,7 @@ func c07Configs(thorough bool) (cfgs []c07Cfg, bounds []int) {
 			}
 		}
 		// two updates in sequence against one executor
-		for _, ks := range [][]string{{"full", "incr"}, {"incr", "remove"}, {"remove", "full"}} {
+		for _, ks := range [][]string{{"full", "incr"}, {"incr", "remove"}, {"remove", "full"}, {"remove", "incr"}} {
 			if !thorough && m != "sort" && m != "nsortmc" && m != "dag" {
 				continue
 			}
